@@ -35,6 +35,9 @@ PRELUDE = r'''
 #include "nmtools/array/index/repeat.hpp"
 #include "nmtools/array/index/concatenate.hpp"
 #include "nmtools/array/index/outer.hpp"
+#include "nmtools/array/view/kron.hpp"
+#include "nmtools/array/view/outer.hpp"
+#include "nmtools/array/ndarray/hybrid.hpp"
 #include "nmtools/array/index/compute_strides.hpp"
 #include "nmtools/array/index/reshape.hpp"
 #include "nmtools/utility/ct_map.hpp"
@@ -54,6 +57,12 @@ using dyn2_a   = na::ndarray_t<nmtools_list<float>, nmtools_array<size_t,2>>;   
 using c13_a    = na::ndarray_t<nmtools_array<float,3>, nmtools_tuple<meta::ct<1>,meta::ct<3>>>;     // constant shape (1,3): axis 0 stretches
 using c23_a    = fixed_a;
 template <class T> T& lv();
+using hyb_a   = na::ndarray_t<nm::utl::static_vector<float,6>, nmtools_array<size_t,2>>;          // run-time shape, fixed dimension 2, BOUNDED buffer (at most 6 elements)
+using hyb1_a  = na::ndarray_t<nm::utl::static_vector<float,3>, nmtools_array<size_t,1>>;          // 1-d, at most 3 elements
+using lhyb1_a = na::hybrid_ndarray<float,3,1>;                                                      // the classic hybrid array: 1-d, at most 3 elements
+// a view over an operand whose element count is only BOUNDED can never know its own size exactly; a bound it reports covers the worst case
+template <class V> constexpr bool bound_covers(size_t worst) { if constexpr (meta::is_bounded_size_v<V>) return (size_t)meta::bounded_size_v<V> >= worst; else return true; }
+#define NO_EXACT_SIZE(V, WORST) static_assert(!meta::is_fixed_size_v<V>, "a bounded operand leaves the size unknown"); static_assert(!meta::is_fixed_shape_v<V>); static_assert(bound_covers<V>(WORST), "a reported size bound covers the worst case")
 using clip13 = nmtools_tuple<nm::clipped_size_t<1>,nm::clipped_size_t<3>>;
 using clip3 = nmtools_tuple<nm::clipped_size_t<3>>;
 // the bounds a (clipped) result TYPE carries, compared with a value
@@ -107,6 +116,39 @@ WITNESSES = [
    "void f(dyn_a& a){ auto v = nm::unwrap(view::transpose(a)); using V = decltype(v); static_assert(!meta::is_fixed_size_v<V>); static_assert(!meta::is_fixed_shape_v<V>); }"),
  W("c11_transpose_fixed", "C11", "pass", "transpose of a constant-shape operand keeps fixed size 6 and dimension 2",
    "void f(fixed_a& a){ auto v = nm::unwrap(view::transpose(a)); using V = decltype(v); static_assert(meta::fixed_size_v<V> == 6); static_assert(meta::fixed_dim_v<V> == 2); }"),
+ # ---------------- C11: one operand of BOUNDED size (hybrid: run-time shape, bounded buffer) - the view's size is never a compile-time constant
+ W("c11_hyb_add_fixed", "C11", "pass", "fixed (2,3) + bounded-size operand: no exact size",
+   "void f(fixed_a& a, hyb_a& b){ auto v = nm::unwrap(view::add(a,b)); using V = decltype(v); NO_EXACT_SIZE(V, 6); }"),
+ W("c11_hyb_add_fixed_rev", "C11", "pass", "bounded-size + fixed (2,3) operand: no exact size",
+   "void f(fixed_a& a, hyb_a& b){ auto v = nm::unwrap(view::add(b,a)); using V = decltype(v); NO_EXACT_SIZE(V, 6); }"),
+ W("c11_hyb_outer_fixed", "C11", "pass", "outer product of a fixed (2,3) operand and a bounded 1-d operand (at most 3): no exact size, bound >= 18",
+   "void f(fixed_a& a, hyb1_a& b){ auto v = nm::unwrap(view::outer_add(a,b)); using V = decltype(v); NO_EXACT_SIZE(V, 18); }"),
+ W("c11_hyb_outer_fixed_rev", "C11", "pass", "outer product of a bounded 1-d operand and a fixed (2,3) operand: no exact size, bound >= 18",
+   "void f(fixed_a& a, hyb1_a& b){ auto v = nm::unwrap(view::outer_add(b,a)); using V = decltype(v); NO_EXACT_SIZE(V, 18); }"),
+ W("c11_lhyb_outer_fixed", "C11", "pass", "outer product of a fixed (2,3) operand and a classic hybrid 1-d array: no exact size, bound >= 18",
+   "void f(fixed_a& a, lhyb1_a& b){ auto v = nm::unwrap(view::outer_multiply(a,b)); using V = decltype(v); NO_EXACT_SIZE(V, 18); }"),
+ W("c11_lhyb_outer_fixed_rev", "C11", "pass", "outer product of a classic hybrid 1-d array and a fixed (2,3) operand: no exact size, bound >= 18",
+   "void f(fixed_a& a, lhyb1_a& b){ auto v = nm::unwrap(view::outer_multiply(b,a)); using V = decltype(v); NO_EXACT_SIZE(V, 18); }"),
+ W("c11_hyb_outer_hyb", "C11", "pass", "outer product of two bounded operands: no exact size, bound >= 9",
+   "void f(hyb1_a& a, hyb1_a& b){ auto v = nm::unwrap(view::outer_add(a,b)); using V = decltype(v); NO_EXACT_SIZE(V, 9); }"),
+ W("c11_hyb_concat_fixed", "C11", "pass", "concatenate(fixed, bounded): no exact size, bound >= 12",
+   "void f(fixed_a& a, hyb_a& b){ auto v = nm::unwrap(view::concatenate(a,b,0_ct)); using V = decltype(v); NO_EXACT_SIZE(V, 12); }"),
+ W("c11_hyb_concat_fixed_rev", "C11", "pass", "concatenate(bounded, fixed): no exact size, bound >= 12",
+   "void f(fixed_a& a, hyb_a& b){ auto v = nm::unwrap(view::concatenate(b,a,0_ct)); using V = decltype(v); NO_EXACT_SIZE(V, 12); }"),
+ W("c11_hyb_kron_fixed", "C11", "pass", "kron(fixed (2,3), bounded (at most 6)): no exact size, bound >= 36",
+   "void f(fixed_a& a, hyb_a& b){ auto v = nm::unwrap(view::kron(a,b)); using V = decltype(v); NO_EXACT_SIZE(V, 36); }"),
+ W("c11_hyb_kron_fixed_rev", "C11", "pass", "kron(bounded, fixed): no exact size, bound >= 36",
+   "void f(fixed_a& a, hyb_a& b){ auto v = nm::unwrap(view::kron(b,a)); using V = decltype(v); NO_EXACT_SIZE(V, 36); }"),
+ W("c11_hyb_where_fixed", "C11", "pass", "where(fixed condition, fixed, bounded): no exact size",
+   "void f(fixed_a& c, fixed_a& a, hyb_a& b){ auto v = nm::unwrap(view::where(c,a,b)); using V = decltype(v); NO_EXACT_SIZE(V, 6); }"),
+ W("c11_hyb_tile_ct", "C11", "pass", "tile of a bounded operand with compile-time reps (2,1): no exact size, bound >= 12",
+   "void f(hyb_a& a){ auto v = nm::unwrap(view::tile(a, nmtools_tuple{2_ct,1_ct})); using V = decltype(v); NO_EXACT_SIZE(V, 12); }"),
+ W("c11_hyb_unary", "C11", "pass", "unary ufunc of a bounded operand: no exact size, bound >= 6",
+   "void f(hyb_a& a){ auto v = nm::unwrap(view::sin(a)); using V = decltype(v); NO_EXACT_SIZE(V, 6); }"),
+ W("c11_hyb_transpose", "C11", "pass", "transpose of a bounded operand: no exact size, bound >= 6",
+   "void f(hyb_a& a){ auto v = nm::unwrap(view::transpose(a)); using V = decltype(v); NO_EXACT_SIZE(V, 6); }"),
+ W("c11_repeat_clipped_repeats", "C11", "pass", "repeat of a constant-shape operand with CLIPPED repeats (upper bounds 2,2): the result shape is not a compile-time constant, a reported size bound covers 2+2 rows of 3",
+   "void f(fixed_a& a){ auto v = nm::unwrap(view::repeat(a, nmtools_tuple{nm::clipped_size_t<2>(1), nm::clipped_size_t<2>(1)}, 0_ct)); using V = decltype(v); NO_EXACT_SIZE(V, 12); }"),
  # ---------------- C11 / C09: an operand whose shape is only BOUNDED (clipped) never yields a view with compile-time-exact shape or size
  W("c11_clip_unary", "C11", "pass", "a unary ufunc of a clipped-shape operand has no fixed shape/size (its run-time shape may be below the bounds), but a size bound >= 6",
    "void f(clip_a& a){ auto v = nm::unwrap(view::sin(a)); using V = decltype(v); static_assert(!meta::is_fixed_shape_v<V>); static_assert(!meta::is_fixed_size_v<V>); static_assert(meta::bounded_size_v<V> >= 6); }"),
